@@ -16,7 +16,7 @@ CONFIG = {
             "box names of one length so that no two different entries share a leaf) replayed on 4 (5) REAL tracker stacks "
             "(accountUpdates + catchpointTracker + onlineAccounts + txTail under trackerRegistry on SQLite) that differ in commit schedule "
             "(after every block / every k blocks / random rounds incl. far behind / rare), reload points, CatchpointInterval (2..12), MaxAcctLookback (0..3), "
-            "label-only vs catchpoint-file generation, and merkletrie.MemoryConfig (5 configurations, 2..512 nodes per page, cache 0..100000); consensus "
+            "label-only vs catchpoint-file generation, POWER LOSSES (the last ledger of every history runs on an on-disk tracker DB with lazy flushes that run past catchpoint rounds; most of them are interrupted: the DB files are copied at the moment the tracker commit transaction is durable and the catchpoint tracker has not yet run its postCommitUnlocked, and the node that goes on is the reopened copy: recoverFromCrash finishes first stage / catchpoints from the unfinished-catchpoint rows), and merkletrie.MemoryConfig (5 configurations, 2..512 nodes per page, cache 0..100000); consensus "
             "CatchpointLookback 2/3/4/8, label format V7 or current. After every commit / reload: DB round, the root of a FRESH merkletrie.Trie opened over the "
             "committed pages, the first-stage record (root, totals, three digests) and every label created (captured from the tracker's log). Oracle (harness, "
             "independent of the model): fold of the deltas -> state_at(r) -> real leaf builders -> fresh in-memory trie root, ledgercore.MakeLabel. spec_ok: "
@@ -47,7 +47,7 @@ CONFIG = {
         "loadFromDisk; tracker.go committedUpTo / produceCommittingTask / replay (flush at the end of a reload) as Gallina (coq/model/CatchpointLabel.v) over the "
         "logical trie of coq/model/MerkleTrie.v and the label / leaf builders of coq/model/CatchpointHash.v",
         "not modelled: SQL persistence (rows = a map), the flush-interval throttle (the harness resets lastFlushTime), catchpoint data file writing (C16), "
-        "goroutine interleaving (every commit is awaited), unfinished-catchpoint records and crash recovery",
+        "goroutine interleaving (every commit is awaited); crash recovery is modelled as commit followed by reload (recoverFromCrash runs the same first stage / finishCatchpoint / prune steps from the durable rows), so a label made after a power loss must be the model's label",
         "tested only: independence of the merkletrie MemoryConfig and of catchpoint file generation (no counterpart in the model)",
     ],
 }
